@@ -61,7 +61,8 @@ func main() {
 			}
 			must(json.Unmarshal(b, &wrap))
 			c := wrap.Case
-			r, _, stuck := runCacheSchedule(c.Cfg, c.Schedule, quiet, true)
+			timeoutScale = confirmScale // a replay is a single schedule: be patient
+			r, _, stuck := runCacheSchedule(c.Cfg, c.Schedule, 4*quiet, true)
 			nc := finishCacheCase(c.Stream, c.Cfg, c.Schedule, r, stuck)
 			js, _ := json.Marshal(nc)
 			fmt.Printf("implementation: %s\n", js)
